@@ -7,7 +7,7 @@ CONSTANTS
  SessT = 1
  RebT = 1
  DefT = 30
- KeepT = {FALSE}
+ KeepT = {TRUE}
  MaxClock = 2
  MaxGen = 2
  FixSubChange = TRUE
